@@ -30,7 +30,10 @@ theorem popWrap_stops (m : M N) (i : Nat) : Stops (popWrap m i) := by
   unfold popWrap at h
   split at h
   · split at h
-    · split at h <;> cases h
+    · split at h
+      · cases h
+      · simp only [Except.error.injEq, Prod.mk.injEq] at h; subst hc; simp at h
+      · cases h
     · cases h
   · split at h
     · simp only [Except.error.injEq, Prod.mk.injEq] at h; subst hc; simp at h; omega
@@ -146,11 +149,12 @@ theorem finishRun_status (pre : List Char) (fuel : Nat) (code0 : List Cmd) (m : 
       | exit c => simp only [Option.some.injEq] at h; subst h; exact ⟨hg c rfl, by simp⟩
       | encErr n => simp only [Option.some.injEq] at h; subst h; simp
       | unspecified => simp only [Option.some.injEq] at h; subst h; simp
+      | inputErr => simp only [Option.some.injEq] at h; subst h; simp
 
-theorem cliRun_status (budget fuel level : Nat) (path : List Char) (extOk : Bool) (src : Option (List Char)) (stdin : List Char)
-    (o : CliOut) (h : cliRun (N := N) budget fuel level path extOk src stdin = some o) :
+theorem cliRunLines_status (budget fuel level : Nat) (path : List Char) (extOk : Bool) (src : Option (List Char)) (lines : List (List Char))
+    (o : CliOut) (h : cliRunLines (N := N) budget fuel level path extOk src lines = some o) :
     o.status ≤ 1 ∧ (o.diag = true → o.status = 1) := by
-  unfold cliRun at h
+  unfold cliRunLines at h
   split at h
   · simp only [Option.some.injEq] at h; subst h; simp
   · split at h
@@ -158,8 +162,13 @@ theorem cliRun_status (budget fuel level : Nat) (path : List Char) (extOk : Bool
     · split at h
       · exact finishRun_status _ _ _ _ _ o h
       · simp only at h
-        cases ho : optimize (N := N) budget level (List.map Cmd.ofParsed (HyP.parse ‹List Char›)) ⟨splitLines stdin, [], []⟩ with
+        cases ho : optimize (N := N) budget level (List.map Cmd.ofParsed (HyP.parse ‹List Char›)) ⟨lines, [], []⟩ with
         | error e => rw [ho] at h; simp only [Option.some.injEq] at h; subst h; simp
         | ok r => rw [ho] at h; exact finishRun_status _ _ _ _ _ o h
+
+theorem cliRun_status (budget fuel level : Nat) (path : List Char) (extOk : Bool) (src : Option (List Char)) (stdin : List Char)
+    (o : CliOut) (h : cliRun (N := N) budget fuel level path extOk src stdin = some o) :
+    o.status ≤ 1 ∧ (o.diag = true → o.status = 1) :=
+  cliRunLines_status budget fuel level path extOk src _ o h
 
 end HyE
